@@ -73,6 +73,13 @@ type Wrap struct {
 	Tag string
 }
 
+// Dz has a field whose first letter has a title case (ǅ) different from its upper case (Ǆ).
+type Dz struct {
+	Ǆep  string
+	Ǉub  float64
+	Name string
+}
+
 type Pair struct {
 	A, B Wrap
 	Ws   []Wrap
@@ -173,7 +180,7 @@ func checkC18(r *harness.Run) harness.Coverage {
 	f := &univ.Fragment{
 		Idents: univ.Tks("L", "P", "Ls", "Ps", "Strs", "Nums", "Next", "S", "N", "B", "Name"),
 		Leaves: univ.Tks("@"),
-		Nums:   univ.Tks("0", "-1", "1"),
+		Nums:   univ.Tks("0", "-1", "1", "-3", "2"),
 		Slices: [][]model.Tok{univ.Tks(":", ":", "-1"), univ.Tks("1", ":")},
 		WildIdx: true, Flatten: true, Filter: true, Dot: true, Pipe: true, Or: true, And: true, Not: true,
 		MaxList: 2, MaxHash: 1,
@@ -290,6 +297,9 @@ func checkC18(r *harness.Run) harness.Coverage {
 			&EmbL{meta: meta{4, ""}, Title: "", Subs: []embLP{}},
 			Pair{A: Wrap{&Leaf{"x", 1, true}, "t"}, B: Wrap{&Leaf{"x", 1, true}, "t"}, Ws: []Wrap{{&Leaf{"x", 1, true}, "t"}, {&Leaf{"y", 2, false}, "t"}, {nil, ""}}},
 			&Pair{A: Wrap{&Leaf{"x", 1, true}, "t"}, B: Wrap{&Leaf{"x", 2, true}, "t"}, Ws: []Wrap{}},
+			Dz{"dz", 8, "n"}, &Dz{"", 0, ""},
+			// a generic map holding Go structs and pointers to structs
+			map[string]interface{}{"Name": "holder", "Repo": Leaf{"s", 7, true}, "Kids": []interface{}{&Leaf{"p", 1, false}, Leaf{"q", 2, true}}, "ID": &Meta{9, "m"}},
 			// generic containers holding typed slices
 			map[string]interface{}{"Name": "mixed", "Kids": []interface{}{[]string{"a", "b"}, []float64{1, 2}, []interface{}{[]string{"c"}}}, "ID": []string{"x", "y"}},
 			struct {
@@ -305,6 +315,7 @@ func checkC18(r *harness.Run) harness.Coverage {
 			"Rev", "By", "Title", "Subs[*].Rev", "Subs[*].By", "Subs[?N > `1`].Rev", "Subs[0].By", "Subs[1].Rev", "[Rev, By, Title]", "Subs[].N", "Rev || Title",
 			"Kids[0]", "Kids[2][0]", "Kids[]", "Kids[*][0]", "ID[0]",
 			// comparisons of whole Go values of the same type (filter conditions compare what navigation returns)
+			"\"Ǆep\"", "\"Ǉub\"", "[\"Ǆep\", Name]", "Repo.S", "Repo.N", "Kids[*].S", "Kids[1].N", "ID.Label", "Kids[?B].S", "Repo",
 			"A == B", "A != B", "A.In == B.In", "Ws[?@ == A].Tag", "Ws[0] == A", "Ws[1] == A", "Ws[?In.S == 'x'].Tag", "Ws[?In.N > `1`].In.S", "A.In.S == B.In.S", "[A == B, A.Tag == B.Tag]", "Ws[2].In == `null`"} {
 			embExprs = append(embExprs, [2]string{e, e}, [2]string{lowerFirst(univ.Lx(e)), e})
 		}
@@ -312,6 +323,12 @@ func checkC18(r *harness.Run) harness.Coverage {
 		for _, e := range []string{"contains(Kids, ID)", "contains(Kids[2], Kids[0])", "contains(Kids, `[\"a\",\"b\"]`)", "length(Kids[0])", "contains(@, Kids)", "sort_by(Kids, &ID)", "max_by(Subs, &N)",
 			"map(&@, Kids)", "reverse(Kids)", "to_array(Kids[0])", "merge(@, @)", "keys(@)", "values(@)", "not_null(Kids[1], ID)", "join(',', ID)", "contains(ID, 'x')", "type(Kids)", "to_string(@)"} {
 			embExprs = append(embExprs, [2]string{e, ""})
+		}
+		// non-ASCII first letters: the lower-case spelling must find the field through its UPPER case
+		embExprs = append(embExprs, [2]string{"\"ǆep\"", "\"Ǆep\""}, [2]string{"\"ǉub\"", "\"Ǉub\""}, [2]string{"[\"ǆep\", name]", "[\"Ǆep\", Name]"})
+		// erroring calls over typed slices must be errors as on the generic form (not swallowed, not panics)
+		for _, e := range []string{"Kids[*].abs(@)", "ID[*].abs(@)", "Subs[*].nosuch(@)", "Ws[*].abs(Tag)", "Kids[*].length(@, @)", "Ws[?In].abs(Tag)", "Kids[].abs(@)"} {
+			embExprs = append(embExprs, [2]string{e, e})
 		}
 		for _, pair := range embExprs {
 			text := pair[0]
@@ -361,6 +378,34 @@ func checkC18(r *harness.Run) harness.Coverage {
 						break
 					}
 				}
+			}
+		}
+	}
+	// the caller changes a typed document in place between two searches with the same compiled expression:
+	// the second answer must reflect the new contents (no stale per-slice memo)
+	for _, text := range []string{"Ls[?N > `0`].S", "Ls[*].S", "Ls[0].S", "Ps[*].N", "Strs[0]", "Nums[?@ > `1`]", "length(Strs)", "Ls[].S", "Ls[::-1][*].N"} {
+		jp, cerr, pn := impl.Compile(text)
+		if pn != nil || cerr != nil {
+			continue
+		}
+		d := &Node{Name: "n", Ls: []Leaf{{"x", 1, true}, {"y", 0, false}}, Ps: []*Leaf{{"p", 1, true}}, Strs: []string{"b", "a"}, Nums: []float64{1, 2}}
+		for step := 0; step < 3; step++ {
+			switch step {
+			case 1:
+				d.Ls[0].S, d.Ls[1].N, d.Ps[0].N, d.Strs[0], d.Nums[0] = "changed", 5, 9, "z", 7
+			case 2:
+				d.Ls[1] = Leaf{"again", 3, true}
+				d.Nums[1] = 0
+			}
+			want, werr, _ := impl.SearchOnce(text, generic(d))
+			got, gerr, gpn := impl.Search(jp, d)
+			extraPairs++
+			if gpn != nil || (gerr != nil) != (werr != nil) || (gerr == nil && !model.DeepEqual(generic(got), generic(want))) {
+				js, _ := json.Marshal(d)
+				r.Report(harness.Violation{Kind: "wrong-value", Signature: "struct-navigation-after-caller-update:" + text,
+					Input:    map[string]interface{}{"expression": text, "document_json_now": string(js), "step": step, "note": "the caller modified elements of the document's typed slices in place between the searches"},
+					Expected: show(want, werr, nil), Observed: show(got, gerr, gpn)})
+				break
 			}
 		}
 	}
